@@ -1,0 +1,5 @@
+//go:build !verif
+
+package tempfile
+
+func verifPoint(label string) {}
